@@ -25,6 +25,7 @@ CONSTANTS
   EnUnsub = TRUE
   EnPing = FALSE
   EnDisconnect = FALSE
+  PubEmpty = {FALSE}
   EnStale = FALSE
 SPECIFICATION Spec
 CONSTRAINT ChanBound
